@@ -30,9 +30,12 @@ type c06Case struct {
 	// "double" (values are mapped to floating point numbers: 0 is a zero of
 	// either sign, its neighbours are denormals, the ends of the domain are the
 	// largest finite numbers and the infinities)
-	Kind       string    `json:"kind"`
-	NullsFirst bool      `json:"nulls_first"`
-	Ascending  bool      `json:"ascending"`
+	Kind       string `json:"kind"`
+	NullsFirst bool   `json:"nulls_first"`
+	Ascending  bool   `json:"ascending"`
+	// Descending: the index claims the DESCENDING boundary order (Find then
+	// scans: only the chunks of a multi index are built with it)
+	Descending bool      `json:"descending,omitempty"`
 	Pages      []c06Page `json:"pages"`
 	Probes     []int64   `json:"probes"`
 	// Zeros (float, double): bit 0: a zero page minimum is -0, bit 1: a zero
@@ -139,6 +142,8 @@ func c06Build(cs *c06Case) (parquet.ColumnIndex, parquet.Type) {
 	_ = hasNull
 	if cs.Ascending {
 		idx.BoundaryOrder = format.Ascending
+	} else if cs.Descending {
+		idx.BoundaryOrder = format.Descending
 	} else {
 		idx.BoundaryOrder = format.Unordered
 	}
@@ -342,7 +347,7 @@ func c06VmCase(cs *c06Case, impl []int) string {
 }
 
 func runC06(c *core.Ctx) {
-	c.Res.Rule = "column indexes enumerated exhaustively over a small value domain (every null-page placement, every bounds combination, ascending claimed only when true of the non-null pages, and unordered) for INT64, byte arrays, FLOAT and DOUBLE (the domain value 0 is a floating point zero whose sign is chosen independently for page minima, page maxima and probes; its neighbours are denormals, the ends are the largest finite numbers and the infinities) plus random larger indexes, each probed with every domain value through Find with CompareNullsLast and CompareNullsFirst (and Search); plus the column indexes of files produced by the writer (one column of every physical/logical kind with its own indexer: INT32, INT64, UINT_32, UINT_64, FLOAT, DOUBLE with both zeros / denormals / infinities / NaN runs, INT96, strings with 0xFF prefixes, FIXED_LEN_BYTE_ARRAY, UUID; required and optional with null runs; several row groups cut by MaxRowsPerRowGroup and by Flush; writers reused through Writer.Reset), searched for every value present in a page. A case is one (index, comparator, flag) with all probes, or one column chunk of a file; non-trivial = at least 2 pages; distinct by the JSON of the case."
+	c.Res.Rule = "column indexes enumerated exhaustively over a small value domain (every null-page placement, every bounds combination, ascending claimed only when true of the non-null pages, and unordered) for INT64, byte arrays, FLOAT and DOUBLE (the domain value 0 is a floating point zero whose sign is chosen independently for page minima, page maxima and probes; its neighbours are denormals, the ends are the largest finite numbers and the infinities) plus random larger indexes, each probed with every domain value through Find with CompareNullsLast and CompareNullsFirst (and Search); plus the column indexes of files produced by the writer (one column of every physical/logical kind with its own indexer: INT32, INT64, UINT_32, UINT_64, FLOAT, DOUBLE with both zeros / denormals / infinities / NaN runs, INT96, strings with 0xFF prefixes, FIXED_LEN_BYTE_ARRAY, UUID; required and optional with null runs; several row groups cut by MaxRowsPerRowGroup and by Flush; writers reused through Writer.Reset), searched for every value present in a page; plus the ColumnIndex implementations Find is handed besides the index of one column chunk: the column index of a column chunk of parquet.MultiRowGroup and of the row groups MergeRowGroups builds on it (pages of the chunks concatenated, IsAscending computed from the chunks' flags and the bounds at every chunk boundary): exhaustively over 2 chunks of <= 2 pages and 3 chunks of <= 1 page (bounds in {0..2}, null pages, chunks without pages, every order an index may truthfully claim: ascending / descending / unordered), random row groups of 1..6 chunks that follow, overlap, reach into the last page of, or precede one another, with null-only chunks, put together flat, nested, through MergeRowGroups and nested in it; the flag and Find's answers are compared with the model (multi_ascending / multi_find) and the predicate is evaluated on the pages the index reports; and the row groups of the written files (data sorted per row group with row groups that follow / overlap / run ahead at their end / precede one another) seen through MultiRowGroup in file order, reversed, rotated, nested and through MergeRowGroups with and without a sorting column, every value of every page searched for. A case is one (index, comparator, flag) with all probes, one multi row group with all probes, or one column chunk of a file or of a view of it; non-trivial = at least 2 pages (2 chunks for a multi row group); distinct by the JSON of the case."
 	var vm []string
 	addVm := func(cs *c06Case) {
 		if cs.Kind != "int64" || len(vm) >= 300 {
@@ -497,14 +502,44 @@ func runC06(c *core.Ctx) {
 		}
 	}
 
+	// the column indexes of MultiRowGroup / merged row groups
+	var mvm []string
+	c06Multis(c, func(mc *c06Multi, asc bool, impl []int) {
+		if len(mvm) >= 200 {
+			return
+		}
+		var chunks []string
+		for _, ch := range mc.Chunks {
+			var pages []string
+			for _, p := range ch.Pages {
+				if p.Null {
+					pages = append(pages, "None")
+				} else {
+					pages = append(pages, fmt.Sprintf("Some (%s, %s)", core.CoqZ(p.Min), core.CoqZ(p.Max)))
+				}
+			}
+			chunks = append(chunks, fmt.Sprintf("(%s, %s)", core.CoqBool(ch.Order == "asc"), core.CoqList(pages)))
+		}
+		var out []string
+		for i, v := range mc.Probes {
+			out = append(out, fmt.Sprintf("(%s, %s, %s, %s, %d%%nat)", core.CoqBool(mc.NullsFirst), core.CoqList(chunks), core.CoqZ(v), core.CoqBool(asc), impl[i]))
+		}
+		mvm = append(mvm, strings.Join(out, ";\n  "))
+	})
+
 	c06Files(c)
 
-	c.Vm("From Coq Require Import List ZArith Bool Arith.\nFrom PQ Require Import Search.Model.\nImport ListNotations.")
+	c.Vm("From Coq Require Import List ZArith Bool Arith.\nFrom PQ Require Import Search.Model Search.MultiFind.\nImport ListNotations.")
 	c.Vm("Definition cases : list (bool * bool * list (option (Z * Z)) * Z * nat) := [\n  " + strings.Join(vm, ";\n  ") + "].")
 	c.Vm("Definition mismatches := filter (fun '(nf, asc, idx, v, r) => negb (Nat.eqb (find_Z nf asc idx v) r)) cases.")
-	c.Vm("Definition M := Eval vm_compute in (length cases, mismatches).\nPrint M.")
+	c.Vm("Definition mcases : list (bool * list (bool * list (option (Z * Z))) * Z * bool * nat) := [\n  " + strings.Join(mvm, ";\n  ") + "].")
+	c.Vm("Definition mmismatches := filter (fun '(nf, chunks, v, asc, r) => negb (Nat.eqb (multi_find_Z nf chunks v) r && Bool.eqb (multi_ascending_Z chunks) asc)) mcases.")
+	c.Vm("Definition M := Eval vm_compute in ((length cases + length mcases)%nat, (map (fun x => (x, @nil (bool * list (option (Z * Z))))) mismatches ++ map (fun '(nf, chunks, v, asc, r) => ((nf, asc, @nil (option (Z * Z)), v, r), chunks)) mmismatches)).\nPrint M.")
 	total := 0
 	for _, s := range vm {
+		total += strings.Count(s, "%nat")
+	}
+	for _, s := range mvm {
 		total += strings.Count(s, "%nat")
 	}
 	c.Res.VmCases = total
@@ -598,6 +633,12 @@ func c06FileDouble(v int64, r uint64, single bool) float64 {
 	return c06Double(v, r&1 != 0, single)
 }
 
+// c06Cross: the unsigned images (10 significant bits) reach their top bit at
+// v = 512 - c06Cross = 28, inside the domain of the unsorted files ([-50,50))
+// and early in the sorted ones, so that neighbouring values differ in the bit a
+// signed comparison would read as the sign.
+const c06Cross = 484
+
 var c06Cols = []c06Col{
 	{name: "int64", node: func() parquet.Node { return parquet.Leaf(parquet.Int64Type) },
 		enc: func(v int64, r uint64) []byte { return binary.LittleEndian.AppendUint64(nil, uint64(v)) }},
@@ -606,10 +647,12 @@ var c06Cols = []c06Col{
 	// unsigned: the images cross the sign bit
 	{name: "uint32", node: func() parquet.Node { return parquet.Uint(32) },
 		enc: func(v int64, r uint64) []byte {
-			return binary.LittleEndian.AppendUint32(nil, uint32(v+100)<<22|uint32(r%4))
+			return binary.LittleEndian.AppendUint32(nil, uint32(v+c06Cross)<<22|uint32(r%4))
 		}},
 	{name: "uint64", node: func() parquet.Node { return parquet.Uint(64) },
-		enc: func(v int64, r uint64) []byte { return binary.LittleEndian.AppendUint64(nil, uint64(v+100)<<54|r%4) }},
+		enc: func(v int64, r uint64) []byte {
+			return binary.LittleEndian.AppendUint64(nil, uint64(v+c06Cross)<<54|r%4)
+		}},
 	{name: "float", node: func() parquet.Node { return parquet.Leaf(parquet.FloatType) },
 		enc: func(v int64, r uint64) []byte {
 			return binary.LittleEndian.AppendUint32(nil, math.Float32bits(float32(c06FileDouble(v, r, true))))
@@ -628,7 +671,7 @@ var c06Cols = []c06Col{
 	{name: "int96", node: func() parquet.Node { return parquet.Leaf(parquet.Int96Type) },
 		enc: func(v int64, r uint64) []byte {
 			b := binary.LittleEndian.AppendUint32(nil, uint32(r%4)<<30)
-			b = binary.LittleEndian.AppendUint32(b, uint32(v+100)<<22)
+			b = binary.LittleEndian.AppendUint32(b, uint32(v+c06Cross)<<22)
 			return binary.LittleEndian.AppendUint32(b, uint32(int32(v/8)-3))
 		}},
 	// long 0xFF prefixes: the truncated maximum cannot be incremented
@@ -638,7 +681,7 @@ var c06Cols = []c06Col{
 		}},
 	{name: "flba6", node: func() parquet.Node { return parquet.Leaf(parquet.FixedLenByteArrayType(6)) },
 		enc: func(v int64, r uint64) []byte {
-			return binary.BigEndian.AppendUint32([]byte{0xff, 0xff}, uint32(v+100)<<22|uint32(r%4))
+			return binary.BigEndian.AppendUint32([]byte{0xff, 0xff}, uint32(v+c06Cross)<<22|uint32(r%4))
 		}},
 	// 16 bytes: the values share their high half and differ in the top bit of
 	// the low half (unsigned order of both halves)
@@ -646,7 +689,7 @@ var c06Cols = []c06Col{
 		enc: func(v int64, r uint64) []byte {
 			var u [16]byte
 			u[7] = 1
-			binary.BigEndian.PutUint64(u[8:], uint64(v+100)<<54|r%4)
+			binary.BigEndian.PutUint64(u[8:], uint64(v+c06Cross)<<54|r%4)
 			return u[:]
 		}},
 }
@@ -797,53 +840,13 @@ func c06FileCheck(c *core.Ctx, fc *c06File, record bool) (ok bool) {
 			c.Violation("file-no-column-index", fmt.Sprintf("row group %d: %v", rgi, err), fc)
 			return false
 		}
-		typ := cc.Type()
-		pages := cc.Pages()
-		pn := 0
-		npages := ix.NumPages()
 		where := fmt.Sprintf("%s column, row group %d", fc.Col, rgi)
 		if fc.Reuse {
 			where += " of a file written after Writer.Reset"
 		}
-		for {
-			pg, err := pages.ReadPage()
-			if err != nil {
-				break
-			}
-			vals := make([]parquet.Value, pg.NumValues())
-			k, _ := pg.Values().ReadValues(vals)
-			rowsSeen += k
-			for _, val := range vals[:k] {
-				if val.IsNull() || c06IsNaN(val) {
-					continue
-				}
-				r := parquet.Search(ix, val, typ)
-				if record {
-					c.Res.Evaluations++
-				}
-				if r > pn {
-					c.Violation("file-missed-page", fmt.Sprintf("%s: value %s is in page %d of %d but Search returned %d (ascending=%v, recorded bounds of page %d: [%s,%s])", where, c06Show(val), pn, npages, r, ix.IsAscending(), pn, c06Show(ix.MinValue(pn)), c06Show(ix.MaxValue(pn))), fc)
-					ok = false
-				} else if r < npages {
-					cl := parquet.CompareNullsLast(typ.Compare)
-					if cl(ix.MinValue(r), val) > 0 || cl(val, ix.MaxValue(r)) > 0 {
-						c.Violation("file-result-does-not-contain", fmt.Sprintf("%s: Search(%s) returned page %d whose bounds [%s,%s] exclude it", where, c06Show(val), r, c06Show(ix.MinValue(r)), c06Show(ix.MaxValue(r))), fc)
-						ok = false
-					}
-				}
-			}
-			parquet.Release(pg)
-			pn++
-			if !ok {
-				break
-			}
-		}
-		pages.Close()
-		if !ok {
-			return false
-		}
-		if pn != npages {
-			c.Violation("file-page-count", fmt.Sprintf("%s: the column index has %d pages, %d pages were read", where, npages, pn), fc)
+		rows, good := c06ChunkSearch(c, fc, cc, ix, "file", where, record)
+		rowsSeen += rows
+		if !good {
 			return false
 		}
 		if record {
@@ -852,14 +855,71 @@ func c06FileCheck(c *core.Ctx, fc *c06File, record bool) (ok bool) {
 			if rgi > 0 || fc.Reuse {
 				bucket = fmt.Sprintf("file/%s/after-reset/asc=%v", fc.Col, ix.IsAscending())
 			}
-			c.Case(bucket, fmt.Sprintf("%s rg %d", key, rgi), npages >= 2)
+			c.Case(bucket, fmt.Sprintf("%s rg %d", key, rgi), ix.NumPages() >= 2)
 		}
 	}
 	if rowsSeen != len(fc.Vals) {
 		c.Violation("file-row-count", fmt.Sprintf("%d rows written, %d values read back", len(fc.Vals), rowsSeen), fc)
 		return false
 	}
-	return ok
+	if !ok {
+		return false
+	}
+	return c06FileViews(c, fc, pf.RowGroups(), record)
+}
+
+// c06ChunkSearch reads the pages of a column chunk and searches its column
+// index for every value present in a page: Search must answer that page or an
+// earlier one whose bounds contain the value. Returns the number of values read.
+func c06ChunkSearch(c *core.Ctx, fc *c06File, cc parquet.ColumnChunk, ix parquet.ColumnIndex, class, where string, record bool) (rowsSeen int, ok bool) {
+	ok = true
+	typ := cc.Type()
+	pages := cc.Pages()
+	defer pages.Close()
+	pn := 0
+	npages := ix.NumPages()
+	for {
+		pg, err := pages.ReadPage()
+		if err != nil {
+			break
+		}
+		vals := make([]parquet.Value, pg.NumValues())
+		k, _ := pg.Values().ReadValues(vals)
+		rowsSeen += k
+		for _, val := range vals[:k] {
+			if val.IsNull() || c06IsNaN(val) {
+				continue
+			}
+			r := parquet.Search(ix, val, typ)
+			if record {
+				c.Res.Evaluations++
+			}
+			if r > pn {
+				lo, hi := "-", "-"
+				if pn < npages {
+					lo, hi = c06Show(ix.MinValue(pn)), c06Show(ix.MaxValue(pn))
+				}
+				c.Violation(class+"-missed-page", fmt.Sprintf("%s: value %s is in page %d of %d but Search returned %d (ascending=%v, recorded bounds of page %d: [%s,%s])", where, c06Show(val), pn, npages, r, ix.IsAscending(), pn, lo, hi), fc)
+				ok = false
+			} else if r < npages {
+				cl := parquet.CompareNullsLast(typ.Compare)
+				if cl(ix.MinValue(r), val) > 0 || cl(val, ix.MaxValue(r)) > 0 {
+					c.Violation(class+"-result-does-not-contain", fmt.Sprintf("%s: Search(%s) returned page %d whose bounds [%s,%s] exclude it", where, c06Show(val), r, c06Show(ix.MinValue(r)), c06Show(ix.MaxValue(r))), fc)
+					ok = false
+				}
+			}
+		}
+		parquet.Release(pg)
+		pn++
+		if !ok {
+			return rowsSeen, false
+		}
+	}
+	if pn != npages {
+		c.Violation(class+"-page-count", fmt.Sprintf("%s: the column index has %d pages, %d pages were read", where, npages, pn), fc)
+		return rowsSeen, false
+	}
+	return rowsSeen, true
 }
 
 func c06FileShrink(c *core.Ctx, fc *c06File) *c06File {
@@ -954,7 +1014,18 @@ func c06Files(c *core.Ctx) {
 			fc.Reuse = c.Rng.Intn(3) == 0
 		}
 		sorted := c.Rng.Intn(3) != 0
+		// how the row groups relate (files cut into row groups every rgRows
+		// rows): the data is sorted within each row group and a row group
+		// starts after the one before it, inside its last values (late data:
+		// the end of a row group runs ahead of the start of the next), or
+		// before it (row groups out of order)
+		rgRows := int(fc.MaxRows)
+		if fc.Flush > 0 {
+			rgRows = fc.Flush
+		}
+		perGroup := sorted && rgRows > 0 && c.Rng.Intn(2) == 0
 		v := int64(c.Rng.Intn(10)) - 20
+		rgStart, beforeJump, jumped := v, v, false
 		for i := 0; i < n; {
 			run := 1 + c.Rng.Intn(40)
 			null := fc.Opt && c.Rng.Intn(3) == 0
@@ -962,6 +1033,25 @@ func c06Files(c *core.Ctx) {
 			zeros := c.Rng.Intn(6) == 0 // a run around the zero of the domain
 			flat := c.Rng.Intn(4) == 0  // a run of one value (often longer than a page)
 			for k := 0; k < run && i < n; k, i = k+1, i+1 {
+				if perGroup && i > 0 && i%rgRows == 0 {
+					switch c.Rng.Intn(4) {
+					case 0: // after the row group before
+					case 1: // the row group before ran ahead at its end
+						if jumped {
+							v = beforeJump + int64(c.Rng.Intn(3))
+						}
+					case 2: // shortly after the start of the row group before
+						v = rgStart + int64(c.Rng.Intn(6))
+					default: // before it
+						v = rgStart - int64(c.Rng.Intn(12))
+					}
+					v = max(v, -90)
+					rgStart, jumped = v, false
+				} else if perGroup && !jumped && rgRows-i%rgRows < 2+rgRows/8 && c.Rng.Intn(4) == 0 {
+					// late data at the end of the row group
+					beforeJump, jumped = v, true
+					v += 8 + int64(c.Rng.Intn(16))
+				}
 				if flat && k > 0 {
 					// v stays
 				} else if sorted {
@@ -994,6 +1084,11 @@ func replayC06(c *core.Ctx, raw json.RawMessage) {
 	var fc c06File
 	if err := json.Unmarshal(raw, &fc); err == nil && fc.Col != "" && c06ColByName(fc.Col) != nil {
 		c06FileCheck(c, &fc, true)
+		return
+	}
+	var mc c06Multi
+	if err := json.Unmarshal(raw, &mc); err == nil && mc.Kind != "" && len(mc.Chunks) > 0 {
+		c06MultiRun(c, &mc, "replay", true)
 		return
 	}
 	var cs c06Case
